@@ -280,10 +280,14 @@ func soloCapped(out string) bool {
 	return len(out) >= 14 && out[len(out)-14:] == "ABORT:solo-cap"
 }
 
+// unitCap: a unit that terminates alone in `solo` steps must terminate within
+// this many of its own steps under any interleaving. The floor is generous on
+// purpose: the cap exists to catch calls that never return, and a legitimate
+// cache makes the reference (warm) much cheaper than the first (cold) call.
 func unitCap(solo int64) int64 {
 	c := solo * 50
-	if c < 10000 {
-		c = 10000
+	if c < 100000 {
+		c = 100000
 	}
 	return c
 }
@@ -326,6 +330,8 @@ func executeC11(scn *Scenario) *RunResult {
 		viol = &Violation{Prop: "C11", Oracle: oracle, Where: where, Detail: detail, Expected: clip(exp, 400), Got: clip(got, 400), Step: sim.steps}
 		sim.stop, sim.stopWhy = true, "violation"
 	}
+	var capUnit *Unit
+	var capUsed int64
 	check := func(ti, ui int, u *Unit, out string) {
 		if sim.stop && viol != nil {
 			return
@@ -343,6 +349,9 @@ func executeC11(scn *Scenario) *RunResult {
 			return // run abandoned, not a verdict
 		} else if len(out) >= 15 && out[len(out)-15:] == "ABORT:violation" {
 			return
+		}
+		if oracle == "step-cap" {
+			capUnit, capUsed = u, unitCap(ref.steps)
 		}
 		fail(oracle, "unit="+u.Kind, fmt.Sprintf("task %d unit %d %s under interleaving differs from the same call alone on a twin", ti, ui, u.short()), ref.out, out)
 	}
@@ -426,6 +435,20 @@ func executeC11(scn *Scenario) *RunResult {
 	}
 	if sim.stop && sim.stopWhy == "budget" {
 		res.Counters["budget_stopped_runs"]++
+	}
+	if viol != nil && viol.Oracle == "step-cap" && capUnit != nil {
+		// confirm against the COLD cost: the reference step count was taken on a
+		// twin that had already served other units (a legitimate cache makes it
+		// cheap); the same unit as the very first call on a fresh instance is the
+		// honest yardstick. If the cap was too tight the run is inconclusive.
+		if cold, err := c.instances(1); err == nil {
+			_, n := runSoloCapped(cold[0], capUnit)
+			if unitCap(n) > capUsed {
+				viol = nil
+				res.Skipped = "stepcap_inconclusive_cold_call_is_longer"
+				return res
+			}
+		}
 	}
 	if sim.deadlock && viol == nil {
 		viol = &Violation{Prop: "C11", Oracle: "deadlock", Where: "readers", Detail: "every live reader spins on a lock held by a parked reader: calls do not return under interleaving", Step: sim.steps}
